@@ -6,6 +6,7 @@ TB_HTTP = "http crate: Uri acceptance and fragment stripping (flag uriOk compute
 
 PROPS = {
     "C01": {
+        "manifest": {"text": 'Kernel-checked theorems over a hand-written Lean model of endpoint_request and the 8 prepare_request functions (all byte strings, all configurations): body decodes to exactly the intended pairs, once each, optional iff supplied, envelope; tied to /repo by differential correspondence of the emitted HttpRequest plus an independent Rust-side oracle using url::form_urlencoded::parse'},
         "lean": ["OAuth2Model.Props.C01"],
         "theorems": ["C01.C01_body", "C01.C01_protocol_spec", "C01.C01_once", "C01.C01_optional_iff",
                      "C01.C01_scope_value", "C01.C01_redirect_override", "C01.C01_envelope",
@@ -19,6 +20,7 @@ PROPS = {
                         "an empty-string scope counts as a supplied scope (scope= is sent)"],
     },
     "C02": {
+        "manifest": {"text": 'Kernel-checked theorems (server-side recovery of Basic credentials for all byte strings, single placement, header bytes legal, credentials never in the URL) over the same model; correspondence compares the Authorization header after base64-decoding and the decoded body pairs'},
         "lean": ["OAuth2Model.Props.C02"],
         "theorems": ["C02.recoverBasic_basicHeader", "C02.C02_basic", "C02.C02_body", "C02.C02_header_safe",
                      "C02.C02_not_in_url"],
@@ -29,6 +31,7 @@ PROPS = {
         "assumptions": ["server-side recovery = strip 'Basic ', base64-decode, split at first ':', form-decode both halves"],
     },
     "C07": {
+        "manifest": {"text": 'Invariant proved by induction over ALL reply scripts: every wait >= server interval + 5 s per slow_down; per-reply laws; run shape (exactly one wait between polls); tied to /repo by comparing the full ordered trace (clock reads, requests, sleeps, result) of both loop variants with the model, plus an independent trace oracle'},
         "lean": ["OAuth2Model.Props.C07"],
         "theorems": ["C07.next_facts", "C07.C07_pending_same", "C07.C07_slowdown_plus5", "C07.C07_failure_monotone",
                      "C07.C07_failure_bounded", "C07.C07_no_panic", "C07.sleeps_prefix", "C07.waits_floor", "C07.run_cases",
@@ -43,6 +46,7 @@ PROPS = {
         "assumptions": ["real time and real sleeping are not exercised", "server interval is a u64 number of seconds"],
     },
     "C08": {
+        "manifest": {"text": 'Theorems over all scripts and clocks: first decisive reply wins and nothing follows; every request is preceded by a clock read within the deadline; expiry; no early give-up; unrepresentable timeout is a value; tied to /repo by full-trace correspondence of both variants'},
         "lean": ["OAuth2Model.Props.C08"],
         "theorems": ["C08.C08_timeout_choice", "C08.C08_unrepresentable", "C08.C08_representable", "C08.run_of_deadline",
                      "C08.loop_guarded", "C08.C08_deadline", "C08.loop_first_decisive", "C08.C08_first_decisive",
@@ -56,4 +60,21 @@ PROPS = {
                          "the blocking and the future-based loop are both run on every case and compared with the same model trace"],
         "assumptions": ["clock values are those returned by the caller's time function (virtual clock)"],
     },
+    "C03": {
+        "manifest": {"text": 'Kernel-checked theorems over a model of AuthorizationRequest::url: endpoint prefix/fragment/old query untouched, appended pairs = intended for all byte strings and any pre-existing query text, returned token = embedded state = single generator call; tied by correspondence on the returned (Url, CsrfToken) with a counter-stamped generator'},
+        "lean": ["OAuth2Model.Props.C03"],
+        "theorems": ["C03.core_eq", "C03.C03_untouched", "C03.C03_pairs", "C03.C03_state", "C03.C03_once",
+                     "C03.C03_core_names", "C03.C03_response_type", "C03.C03_optional_iff", "C03.C03_redirect_override",
+                     "C03.split_text"],
+        "ops": ["authurl"],
+        "signatures": ["C03:"],
+        "n": {"quick": 5000, "thorough": 300000},
+        "trusted_base": [TB_URL + "; the split of the endpoint text at the first '#' and '?' mirrors Url's query/fragment accessors",
+                         "hand-written model lean/OAuth2Model/Model/AuthUrl.lean of AuthorizationRequest::url / authorize_url_impl"],
+        "assumptions": ["scope is emitted iff the space-joined scope string is non-empty (a single empty-string scope is omitted)",
+                        "the state generator is modelled as a function of its call index"],
+    },
 }
+
+# reasons for properties without a claimed check (kept current)
+NOT_CLAIMED = {}
